@@ -68,6 +68,12 @@ def main():
         res['demo'] = dict(with_change_exit=r1.returncode, without_change_exit=r0.returncode, with_change_tail=(r1.stdout + r1.stderr)[-300:], seconds=round(time.time() - t, 1))
         res['confirmed'] = (r1.returncode != 0 and r0.returncode == 0)
         res['checks'] = {}
+        oldp = os.path.join(dst, 'result.json')
+        if os.path.exists(oldp) and not a.demo_only:
+            try:        # keep what other properties' checks said earlier (re-run those to refresh them)
+                res['checks'] = {k: dict(v, stale=True) for k, v in json.load(open(oldp)).get('checks', {}).items() if k not in props}
+            except Exception:
+                pass
         if a.demo_only:
             old = os.path.join(dst, 'result.json')
             if os.path.exists(old):
